@@ -24,6 +24,8 @@ import props as P  # noqa: E402
 REPO = C.REPO
 INC = C.INC
 BUILD = os.path.join(VERIF, "build")
+# developer switch for trying the checks on a scratch tree (VERIF_REPO) without touching the committed evidence: VERIF_OUT=<dir>
+OUT = os.environ.get("VERIF_OUT", VERIF)
 HARNESS = os.path.join(VERIF, "harness")
 NCPU = int(os.environ.get("VERIF_JOBS", "16"))
 
@@ -350,8 +352,8 @@ def run_check(pid, tier):
     deadline = t_start + float(os.environ.get("VERIF_DEADLINE_S", default_deadline))
     spec = P.PROPS[pid]
     os.makedirs(os.path.join(BUILD, "bin"), exist_ok=True)
-    os.makedirs(os.path.join(VERIF, "replays"), exist_ok=True)
-    os.makedirs(os.path.join(VERIF, "evidence"), exist_ok=True)
+    os.makedirs(os.path.join(OUT, "replays"), exist_ok=True)
+    os.makedirs(os.path.join(OUT, "evidence"), exist_ok=True)
 
     if "custom" in spec:
         import importlib
@@ -508,7 +510,7 @@ def finish(pid, tier, seed, jobs, classes_info, t_start, deadline, extra_cov=Non
         f = fs[0]
         j = f["job"]
         prop = k[0]
-        rp = os.path.join(VERIF, "replays", "%s_%s_%03d.json" % (pid, tier, n))
+        rp = os.path.join(OUT, "replays", "%s_%s_%03d.json" % (pid, tier, n))
         rec = {"property": prop, "tier": tier, "config": j.cfg.to_json(), "tu": j.tu, "part": j.part,
                "extra_flags": j.extra_flags, "run_args": j.run_args,
                "kind": f["kind"], "subject": f["subject"], "op": f["op"],
@@ -561,7 +563,7 @@ def finish(pid, tier, seed, jobs, classes_info, t_start, deadline, extra_cov=Non
         "assumptions": P.PROPS[pid].get("assumptions", []) + P.COMMON_ASSUMPTIONS,
         "wall_s": round(time.time() - t_start, 1), "violations": len(violations),
     }
-    evp = os.path.join(VERIF, "evidence", pid + ".json")
+    evp = os.path.join(OUT, "evidence", pid + ".json")
     with open(evp + ".tmp", "w") as fh:
         json.dump(ev, fh, indent=1)
     os.replace(evp + ".tmp", evp)
